@@ -15,7 +15,7 @@
 import GEVerif.Lemmas.WellTyped
 
 namespace GEVerif.C01
-open GEVerif
+open GEVerif GEVerif.WellTyped
 
 /-- MAIN THEOREM.  Whatever the decider kind, the fuel, the type, the synthesis context, the
 sibling values and the state (random source / genotype / PI-grow flag) are: if `create_node`
@@ -120,19 +120,19 @@ example : tyWF (.ann .str (.intRange 0 5)) = false := by decide
 example : depsOK [("n", .int 2)] (.ann (.list (.cls 0)) (.depListSize "n")) = true := by decide
 example : depsOK [("n", .int (-1))] (.ann (.list (.cls 0)) (.depListSize "n")) = false := by decide
 -- grow, full, PI-grow, GE and dynamic SGE all succeed on it, so the theorems apply
-example : (randomTree exGWT ⟨.grow, 1⟩ 30 (exStWT [0, 5])).isOk = true := by decide
-example : (randomTree exGWT ⟨.grow, 2⟩ 30 (exStWT [2, 2, 0, 5, 0, 7, 1, 0, 1, 0, 1])).isOk = true := by
+example : resIsOk (randomTree exGWT ⟨.grow, 1⟩ 30 (exStWT [0, 5])) = true := by decide
+example : resIsOk (randomTree exGWT ⟨.grow, 2⟩ 30 (exStWT [2, 2, 0, 5, 0, 7, 1, 0, 1, 0, 1])) = true := by
   decide +kernel
-example : (randomTree exGWT ⟨.full, 3⟩ 30 (exStWT [2, 2, 0, 5, 0, 7, 1, 0, 1, 0, 1])).isOk = true := by
+example : resIsOk (randomTree exGWT ⟨.full, 3⟩ 30 (exStWT [2, 2, 0, 5, 0, 7, 1, 0, 1, 0, 1])) = true := by
   decide +kernel
-example : (mapGE exGWT ⟨.pigrow, 4⟩ 30 [2, 2, 0, 5, 1, 7, 1, 8, 1, 1, 2, 1, 5] true).isOk = true := by
+example : resIsOk (mapGE exGWT ⟨.pigrow, 4⟩ 30 [2, 2, 0, 5, 1, 7, 1, 8, 1, 1, 2, 1, 5] true) = true := by
   decide +kernel
-example : (mapDSGE exGWT 3 30 [] { draws := [2, 2, 0, 5, 1, 7, 1, 8, 1, 1, 2, 1, 5] }).isOk = true := by
+example : resIsOk (mapDSGE exGWT 3 30 [] { draws := [2, 2, 0, 5, 1, 7, 1, 8, 1, 1, 2, 1, 5] }) = true := by
   decide +kernel
 example : ∃ v s', randomTree exGWT ⟨.grow, 2⟩ 30 (exStWT [2, 2, 0, 5, 0, 7, 1, 0, 1, 0, 1]) = .ok v s' ∧
     wt exGWT [] (.cls 0) v = true := by
-  obtain ⟨v, s', h⟩ := (Res.isOk_iff _).1
-    (show (randomTree exGWT ⟨.grow, 2⟩ 30 (exStWT [2, 2, 0, 5, 0, 7, 1, 0, 1, 0, 1])).isOk = true by
+  obtain ⟨v, s', h⟩ := (resIsOk_iff _).1
+    (show resIsOk (randomTree exGWT ⟨.grow, 2⟩ 30 (exStWT [2, 2, 0, 5, 0, 7, 1, 0, 1, 0, 1])) = true by
       decide +kernel)
   exact ⟨v, s', h, C01_random_tree_wt exGWT (by decide) _ _ _ _ v h⟩
 -- without `grammarWF` the statement is false: an abstract class registered without productions
